@@ -440,7 +440,7 @@ func (dc *DataContext) SetMapVarValue(Vars map[string]reflect.Value, mapVarName,
 				if e != nil {
 					return e
 				}
-				value.Elem().Index(int(key.Int())).Set(wantedValue)
+				value.Elem().Index(core.GetIndex(key)).Set(wantedValue)
 				return nil
 			}
 
@@ -517,7 +517,7 @@ func (dc *DataContext) SetMapVarValue(Vars map[string]reflect.Value, mapVarName,
 				if e != nil {
 					return e
 				}
-				value.Index(int(key.Int())).Set(wantedValue)
+				value.Index(core.GetIndex(key)).Set(wantedValue)
 				return nil
 			}
 
